@@ -99,9 +99,20 @@ def sub_cli(inp, process=False):
         else:
             path = os.path.join(d, 'spec.hpl')
             if mode == 'file':
-                with open(path, 'w', encoding='utf-8') as f:
-                    f.write(text)
-                k, ast = lib.outcome('specification', text)
+                if inp.get('raw_latin1'):
+                    # the file holds Latin-1 bytes that are not valid UTF-8: it has no text, hence nothing that parses
+                    data = text.encode('latin-1')
+                    with open(path, 'wb') as f:
+                        f.write(data)
+                    try:
+                        data.decode('utf-8')
+                        k, ast = lib.outcome('specification', text)
+                    except UnicodeDecodeError:
+                        k, ast = 'undecodable', None
+                else:
+                    with open(path, 'w', encoding='utf-8') as f:
+                        f.write(text)
+                    k, ast = lib.outcome('specification', text)
             else:
                 k, ast = 'missing', None
             argv = [path]
@@ -189,7 +200,13 @@ def run_encoding_table(ctx):
 
 
 def gen_case(ch):
-    mode = ch.pick(['property'] * 6 + ['file'] * 6 + ['missing-file'])
+    mode = ch.pick(['property'] * 6 + ['file'] * 6 + ['missing-file', 'undecodable-file'])
+    if mode == 'undecodable-file':
+        where = ch.pick(['title', 'string', 'description', 'topic'])
+        word = ch.pick(['Caf\xe9', '\xfcber', 'na\xefve \xe0 la'])
+        text = {'title': f'# title: "{word}"\nglobally: no a', 'description': f'# id: p\n# description: "{word}"\nafter a: some b',
+                'string': f'globally: no a {{s = "{word}"}}', 'topic': f'globally: no {word}'}[where]
+        return {'mode': 'file', 'text': text, 'json': ch.int(0, 2) > 0, 'kind': 'undecodable', 'flag_first': ch.bool(), 'raw_latin1': True}
     want_json = ch.int(0, 2) > 0
     kind = ch.pick(['valid', 'valid', 'valid', 'special', 'syntax', 'type', 'sanity', 'two-properties', 'empty'])
     if mode == 'missing-file':
@@ -238,7 +255,7 @@ def _nontrivial(inp, r):
     if r == 'accepted-json':
         t = inp['text']
         return any(x in t for x in ('INF', 'NAN', '1e999', '1e400')) or 'within' not in t or any(op in t for op in (' and ', ' or ', 'forall', 'exists'))
-    return r in ('rejected-type', 'rejected-sanity', 'rejected-missing')
+    return r in ('rejected-type', 'rejected-sanity', 'rejected-missing', 'rejected-undecodable')
 
 
 def shard(ctx, shard_no, nshards, n, n_proc):
